@@ -9,8 +9,9 @@ import ChiModel.LogLik
 individual are accepted. A dataset is a list of rows (a long-format frame, row by row); a missing
 cell (`NaN` / `<NA>`) is `none`.
 
-The three places where the unchanged code does not do what C14 asks are kept as `legacy` switches
-(`Legacy.frameOrder`, `Legacy.bareSingle`, `Legacy.rawSelector`): `true` is the code as it is.
+Three places were repaired in /repo (a5c706c rows ordered by time, d654081 one-element list kept, 614a431
+selector stringified). `Legacy.asIs` (all switches `false`) is the code as it is now; the pre-fix
+behaviour (`Legacy.preFix`, switches `true`) is kept only for the counterexample theorems.
 -/
 namespace ChiModel
 namespace Problem
@@ -108,7 +109,7 @@ def sortByTime [ScalarFns α] : List (α × α) → List (α × α)
   | p :: ps => insertByTime p (sortByTime ps)
 
 /-- the per-output data handed to `chi.LogLikelihood`; `sort = true` is the intended behaviour
-    (rows ordered by time before they are checked), `false` the code as it is (frame order) -/
+    (rows ordered by time before they are checked, the code as it is), `false` the pre-fix frame order -/
 def outData [ScalarFns α] (sort : Bool) (d : List (Row α)) (i b : String) : OutData α α :=
   let o := rowsFor d i b
   if sort then
@@ -326,15 +327,17 @@ inductive Posterior (α : Type) where
   | hier (is : List (Indiv α)) (cov : Option (List (List (Option α))))
 
 structure Legacy where
-  /-- #25: rows are handed over in frame order (intended: ordered by time) -/
+  /-- #25 (pre-fix): rows are handed over in frame order; now: ordered by time (stable) -/
   frameOrder : Bool
-  /-- #26: a single likelihood is returned bare even when a population model is set -/
+  /-- #26 (pre-fix): a single likelihood is returned bare even when a population model is set -/
   bareSingle : Bool
-  /-- #18: the selector is compared with the string keys as it is (intended: cleaned like the ID column) -/
+  /-- #18 (pre-fix): the selector is compared with the string keys as it is; now: `str(individual)` -/
   rawSelector : Bool
 
-def Legacy.asIs : Legacy := ⟨true, true, true⟩
-def Legacy.intended : Legacy := ⟨false, false, false⟩
+/-- the code as it is (after the three `fix:` commits) -/
+def Legacy.asIs : Legacy := ⟨false, false, false⟩
+/-- the code before the three `fix:` commits -/
+def Legacy.preFix : Legacy := ⟨true, true, true⟩
 
 /-- the loop over `self._mechanistic_model.outputs()` in `_create_log_likelihood` -/
 def outputsData [ScalarFns α] (lg : Legacy) (P : Problem α) (i : String) :
